@@ -174,7 +174,7 @@ Collect == \E n \in Nodes \ {Root} :
              /\ UNCHANGED tab /\ last' = [R0 EXCEPT !.op = "gc"]
 NoGarbage == \A n \in Nodes \ {Root} : kind[n] = "free" \/ Referenced(n, tab, child)
 
-WalkLists == {<<>>, <<"a">>, <<"b">>, <<"..">>, <<"a", "b">>, <<"..", "a">>, <<"..", "..">>, <<"a", "a">>}
+WalkLists == {<<>>, <<"a">>, <<"b">>, <<"..">>, <<"a", "b">>, <<"..", "a">>, <<"..", "..">>, <<"a", "a">>, <<"..", "..", "a">>, <<"..", "..", "b">>, <<"..", "b">>}
 \* (top-level disjunction of \E-actions: TLC's simulator then picks one instance at random)
 G == NoGarbage
 Next ==
@@ -200,4 +200,10 @@ FilesAreLeaves == \A n \in Nodes : kind[n] # "dir" => child[n] = NoKids
 RootStays == kind[Root] = "dir"
 \* handles only reference live nodes, and their chain consists of directories
 HandlesLive == \A x \in SF : tab[x].n # 0 => (kind[tab[x].n] # "free" /\ \A i \in 1..Len(tab[x].chain) : kind[tab[x].chain[i]] = "dir")
+\* ---- reachability goals (test generation, see ServeImpl): a walk two levels up and down into another branch
+\* succeeds from a fid that stays bound
+GoalUpUpDown == /\ last.op = "walk" /\ last.res = "ok" /\ Len(last.names) = 3 /\ last.names[2] = ".." /\ last.names[3] # ".."
+                /\ last.nf # last.f /\ Len(tab[<<last.s, last.f>>].chain) >= 2
+                /\ tab[<<last.s, last.nf>>].n # tab[<<last.s, last.f>>].chain[2]
+NeverUpUpDown == ~GoalUpUpDown
 =============================================================================
